@@ -4,6 +4,39 @@ import json, os, subprocess
 VERIF = os.path.dirname(os.path.dirname(os.path.abspath(__file__)))
 
 CLAIMED = {
+    "C08": ("DESIGN.md §4 C08",
+            "The segmentation of the byte stream is the schedule. Twin worlds built from the same knobs run the same real code: R receives the stream one "
+            "byte per call, S under a seeded schedule (every family of the statement; single split points swept for short streams); handler invocations "
+            "with parameters and typed values, output bytes, flush count, error sequence, drained queue and remainder must agree. A zero-length call is "
+            "compared against SCPI_Parse of the pending bytes in a third world. Exploration level.",
+            "Reference is the same real code under the canonical schedule (differential), so a defect that is independent of chunking is invisible here. "
+            "Calls are clipped to fit the buffer (the statement's precondition); overrun behaviour belongs to C01/C05.",
+            "deterministic simulation: seeded segmentation schedules, twin-world differential oracle, idle-timer flush"),
+    "C09": ("DESIGN.md §4 C09",
+            "Histories on one long-lived context: seeded sequences of well-formed, mutated and deliberately broken messages (half blocks, failing handlers, "
+            "unterminated text flushed by the idle timer, oversize chunks, firmware errors) followed by B, against B on a fresh context; and U1;U2 against U2 "
+            "alone. B's invocations, parameters, output, flushes and raised codes must be equal; queue-overflow effects are masked, B never reads status.",
+            "Differential against the same code on a fresh context; effects through status registers and the error queue are exempt as the statement says.",
+            "deterministic simulation: seeded fault histories (client death, idle flush, overrun, handler failure), fresh-context twin oracle"),
+    "C10": ("DESIGN.md §4 C10",
+            "Seeded operation histories (1..1500, thorough ..10000 ops) of firmware pushes/pops/clears/counts interleaved with controller traffic over the "
+            "segmenting link, allocation failures injected per push through the wrapped strndup, capacities 1..6, malloc and no-info builds; a reference "
+            "FIFO (A.4) and an allocation ledger are compared after every operation; ASan catches double free / use after free, the ledger catches leaks.",
+            "Exploration, not the exhaustive enumeration the quantifier mentions (that would be model checking). The -113 text is predicted for absolute "
+            "headers only.",
+            "deterministic simulation: seeded histories with allocation-fault injection against a reference FIFO and ownership ledger"),
+    "C18": ("DESIGN.md §4 C18",
+            "Every SYST:ERR? issued in seeded queue/heap histories (texts 0..400 characters, quotes at and around the 255 boundary and at heap-wrap part "
+            "boundaries, codes with and without description) is parsed by an independent IEEE 488.2 reader: one valid string, content a prefix of "
+            "description;text, <= 255 characters, not cut earlier than the escaped-length limit allows, entry consumed. malloc and static-heap builds.",
+            "The 255 limit is accepted on either reading (escaped or unescaped length). Descriptions are taken from the library's X-macro list as data.",
+            "deterministic simulation: seeded heap-layout histories, independent response reader as oracle"),
+    "C20": ("DESIGN.md §4 C20",
+            "Static-heap build: seeded histories of pushes with texts of length 0..heap+3, pops via SYST:ERR? and SCPI_ErrorPop, clears and overflows on heaps "
+            "of 2..64 (and 600) bytes; reference queue 'exactly the pushed text or nothing', text mandatory when the queue was empty and it fits; exact-size "
+            "heap allocation under ASan guards everything outside the heap.",
+            "Exploration; whether a text is stored when the queue is not empty is deliberately not asserted (statement allows nothing).",
+            "deterministic simulation: seeded histories with heap exhaustion against a reference queue"),
     # id: (design_ref, level text, level_note, technique)
     "C11": ("DESIGN.md §4 C11",
             "Seeded search over interleavings of controller status commands (segmented input, several units per message) and firmware register / "
